@@ -28,7 +28,7 @@ import textstream as ts
 
 PID = "C01"
 MANIFEST = {
-    "text": "26 + 5 Coq theorems over the evaluator model (explicit Panic outcome for every partial Rust operation on a "
+    "text": "38 + 5 (text layer) Coq theorems over the evaluator model (explicit Panic outcome for every partial Rust operation on a "
             "modelled path): evaluation at any call-depth budget from any configuration whose innermost frame is Owned "
             "never returns Panic and keeps that invariant — for every operator/built-in implementation that does not "
             "panic itself; hypotheses discharged for the transcribed operators (26 ops x 3 broadcasting arms: no "
@@ -38,21 +38,34 @@ MANIFEST = {
             "with an arm for every row of the regenerated table (69) and `^`, library behaviour (libm x 9, powf, Unicode "
             "trim/upper/lower, lambda text, the std functions under the number display, the clock) as fields of an ORACLE "
             "record; for EVERY oracle: C01_builtin_call_no_panic_all — after the arity check no arm panics (every args[i], "
-            "`&args[1..]`, dyn-fmt's state machine incl. its unreachable_unchecked() arm) under three named side conditions "
+            "`&args[1..]`, dyn-fmt's state machine incl. its unreachable_unchecked() arm) under two named side conditions "
             "that are each necessary in the model (percentile: p a genuine double and <= 2^53 elements; format: the display "
             "of the numbers does not overflow its i32/i64 arithmetic, proved for every valid double when floor(log10) is "
-            "within +-2000; time_now: clock not before 1970 — an OPEN finding, reproduced on the real binary); "
+            "within +-2000; the third, time_now's clock, is gone: the arm is total since repo fix bf56486 and so is the model's); "
             "C01_eval_never_unmodelled_all / C01_program_never_unmodelled_all — no evaluation, call or program is "
-            "Unmodelled any more (the evaluator induction replayed for that outcome).  C01_builtin_call_no_panic_full "
-            "(stated over EvalInst.builtin_impl, which answers Unmodelled for 50 built-ins) stays a Definition; its content "
-            "is the _all theorem.  NOT proved: an evaluator-level `never Panic` for the complete dispatcher (it would need "
-            "`every number is a valid binary64` as an evaluator invariant because of the percentile / format conditions); "
+            "Unmodelled any more (the evaluator induction replayed for that outcome).  EVALUATOR-LEVEL never-Panic FOR THE "
+            "COMPLETE SET (coq/Valid.v, proofs/AllValid*.v): the validity invariant `every number is a valid binary64` "
+            "(SpecFloat.valid_binary 53 1024; hereditary over lists, records, closures' bodies and captured values, frames) is "
+            "preserved by every Num.v operation (Flocq), every operator (26 x 3 arms), every one of the 69 built-in arms and by "
+            "evaluation (all expression forms, every depth): C01_eval_no_panic_all / C01_call_no_panic_all / "
+            "C01_program_no_panic_all — for every oracle with oracle_valid o (numbers in, numbers out; PROVED of the table oracle "
+            "the ALL stream runs, for every table: C01_table_oracle_valid) and oracle_display_safe o (two sufficient conditions: "
+            "log10 range, or C20's log10_sane_pos with C20's executable display library), every valid program on valid inputs, every "
+            "depth, both build profiles: never Panic, values valid, invariant kept; C01_eval_no_panic_valid_generic is the axiom-free "
+            "core (any valid-in/valid-out panic-free operators and built-ins).  PARTIAL / explicit side condition: percentile's list "
+            "length <= 2^53 is NOT discharged (no resource bound of the model rules such a list out): the evaluator-level theorems "
+            "are stated for builtin_all_fit o = builtin_all o except that percentile of a longer list is an error "
+            "(C01_percentile_guard_is_the_only_difference); valid_expr of parsed programs: C01_parsed_number_literal_valid (the one place where the text -> AST model creates a "
+            "number, PegToItems.number_item, only creates valid ones) + the ALL stream evaluating valid_progb on every parsed "
+            "program; NOT a theorem over the whole of PegToItems + Pratt.  "
+            "C01_builtin_call_no_panic_full (stated over EvalInst.builtin_impl, which answers Unmodelled for 50 built-ins) stays a "
+            "Definition; its content is the _all theorems.  "
             "parser, formatter, printer, JSON and error-rendering stages and all error spans are library/string code "
             "decided by SEARCH: per-stage catch_unwind harness on release+debug builds and exit status of the real "
             "binary over grammar-generated (nesting <= 64), corpus-mutated, raw UTF-8, every built-in x boundary-pool "
             "tuples (arity -1..+2), JSON inputs incl. __blots_function objects, unit identifiers; crashes classified by "
             "(stage, file, message class); 7 crash/hang classes found on the original tree, all fixed in /repo now and "
-            "kept as regression inputs; 1 open (time_now with the clock before the epoch).  TEXT LAYER (coq/TextRun.v: "
+            "kept as regression inputs (time_now with the clock before the epoch: fixed bf56486).  TEXT LAYER (coq/TextRun.v: "
             "program text -> PEG pairs -> Pratt items -> AST -> statement loop -> outputs as ONE Gallina function, tied to the "
             "real parse+evaluate+outputs and to the real binary by the TEXT-EVAL stream, which hands the model only the "
             "bytes): C01_text_parse_total — the parser stage of the model never runs out of fuel, for EVERY text (from "
@@ -63,8 +76,8 @@ MANIFEST = {
     "note": "trusted: Coq kernel + vm_compute; transcription of evaluate_ast / FunctionDef::call / evaluate_binary_op_ast "
             "and of every built-in arm (validated by the EVAL correspondence in both overflow semantics and by the ALL "
             "correspondence: model with oracle tables dumped by the harness vs implementation, plus the real binary's "
-            "stderr for print); the args_ok form of the percentile condition uses the standard library's real-number axioms "
-            "(C15's index bound), the *_axiom_free form none; the search half is testing, not proof; resource exhaustion "
+            "stderr for print); the args_ok form of the percentile condition and the validity-invariant theorems (Flocq's correctness lemmas "
+            "for + - * / sqrt and rounding) use the standard library's four real-number axioms, the *_axiom_free / *_generic forms none; the search half is testing, not proof; resource exhaustion "
             "(allocation failure under a 12 GiB address-space cap, stack overflow beyond nesting 64) is counted and excluded",
     "category": "proof",
     "design_ref": "DESIGN.md section 6 C01; notes/C01.md",
